@@ -238,6 +238,22 @@ def run(chk, tier):
         seen_keys.add(key)
         row = table.get(key)
         if row is None:
+            # code moved into a module-private helper: the reviewed rows of ALL its callers (same construct) speak about it, as long as the
+            # occurrences do not multiply (helper sites + what is left in the callers <= what was reviewed in the callers)
+            moved = None
+            if bodies and all(str(b_.d.get("vis", "")).startswith("Restricted") and "DefId(0:0 " not in str(b_.d.get("vis", "")) for b_ in bodies):
+                ids_ = [b_.id for b_ in bodies]
+                callers_ = sorted(set(panic_edges.root_fn(F.bodies[x].path) for x, ys in cg.edges.items() if x in F.bodies and any(i_ in ys for i_ in ids_) and x not in ids_))
+                crow = [table.get(c_ + "|" + sig) for c_ in callers_]
+                if callers_ and all(r_ is not None and r_["status"] == "safe" for r_ in crow):
+                    left = sum(len(out.get((c_, sig), [])) for c_ in callers_)
+                    if len(sites) + left <= sum(r_["count"] for r_ in crow):
+                        moved = callers_
+            if moved:
+                for c_ in moved:
+                    seen_keys.add(c_ + "|" + sig)
+                chk.ok("R01.2", key, "moved out of %s into this private helper; covered by their reviewed rows (%s)" % ([lib.short(c_) for c_ in moved], crow[0]["reason"][:80]))
+                continue
             chk.bad("R01.2", key, "panic-capable construct with no discharge: %s x%d in %s" % (sig, len(sites), bp), where)
             continue
         if len(sites) > row["count"]:
